@@ -824,7 +824,7 @@ func (env *SpecEnv) evalCall(st, old *State, x *ast.CallExpr) Val {
 	case "tagged":
 		if bl, ok := x.Args[0].(*ast.BasicLit); ok {
 			s, _ := strconv.Unquote(bl.Value)
-			return Val{BoolLit(st.tags[s]), boolT}
+			return Val{st.tagTerm(s), boolT}
 		}
 	case "int", "int64", "uint64", "int32", "uint32", "uint8", "byte", "uint", "uint16", "int16":
 		v := arg(0)
@@ -1603,4 +1603,66 @@ func (c *ExecCtx) ownSpecOr() *FuncSpec {
 		return c.spec
 	}
 	return c.ownSpec()
+}
+
+
+// path tags are ghost booleans so that they survive state merging
+func (st *State) tagTerm(name string) *Term {
+	if t, ok := st.ghost["$tag:"+name]; ok {
+		return t
+	}
+	return False
+}
+
+func (u *Unit) setTag(st *State, name string) {
+	st.tags[name] = true
+	u.ghostSet(st, "$tag:"+name, True)
+}
+
+func (c *ExecCtx) runBeforeNamedCallAnchors(st *State, name string, call *ast.CallExpr, recv *Val, args []Val) {
+	spec := c.ownSpec()
+	if spec == nil || len(spec.Ghosts) == 0 {
+		return
+	}
+	ord := -2
+	for _, g := range spec.Ghosts {
+		if !strings.HasPrefix(g.Anchor, "before call(") {
+			continue
+		}
+		if ord == -2 {
+			ord = c.callOrdinal(call, name)
+		}
+		if g.Anchor == "before call("+name+")" || g.Anchor == fmt.Sprintf("before call(%s)#%d", name, ord) {
+			g.used = true
+			binds := map[string]Val{}
+			for i, a := range args {
+				binds[fmt.Sprintf("ʃarg%d", i)] = a
+			}
+			c.execGhostWith(st, g, call.Pos(), binds)
+		}
+	}
+}
+
+func (c *ExecCtx) runNamedCallAnchors(st *State, name string, call *ast.CallExpr, res []Val) {
+	spec := c.ownSpec()
+	if spec == nil || len(spec.Ghosts) == 0 || st.dead {
+		return
+	}
+	ord := c.callOrdinal(call, name)
+	for _, g := range spec.Ghosts {
+		if g.Anchor == "call("+name+")" || g.Anchor == fmt.Sprintf("call(%s)#%d", name, ord) {
+			g.used = true
+			binds := map[string]Val{}
+			for i, r := range res {
+				binds[fmt.Sprintf("ʃret%d", i)] = r
+			}
+			if len(res) > 0 {
+				binds["ʃret"] = res[0]
+			}
+			for i, a := range c.callArgs {
+				binds[fmt.Sprintf("ʃarg%d", i)] = a
+			}
+			c.execGhostWith(st, g, call.Pos(), binds)
+		}
+	}
 }
